@@ -300,6 +300,9 @@ fn fz_app_attrs(u: &mut Unstructured, sel: u8) -> AResult<Vec<RAttr>> {
             10 => RAttr::Software("second".into()),
             11 => RAttr::Priority(1),
             12 => RAttr::Priority(2),
+            13 => RAttr::Fp(FpSpec::Wire(vec![1, 2, 3, 4])),
+            14 => RAttr::Mi(MacSpec::Wire(vec![7; 20])),
+            15 => RAttr::MiSha256(MacSpec::Wire(vec![9; 32])),
             _ => {
                 let a = attr_from(u)?;
                 if crate::codec::var_len(&a).map(|l| l < 200).unwrap_or(true) && crate::conv::to_lib(&a).is_ok() {
